@@ -10,7 +10,8 @@ import z3
 from symx import core, cpstub
 from symx.core import SymNum, SymBool, Obl, lift, lb, mval, Ctx
 
-ANN = ["a0", "a1", "a2", "a3", "a4"]
+# mixed case on purpose: the case-sensitive order (the container's) is the list order, the case-insensitive order is not
+ANN = ["B0", "a1", "c2", "d3", "e4"]
 
 
 # ---------------------------------------------------------------------------------------------
